@@ -147,6 +147,38 @@ CHECKS.update({
         technique='Lean parser/renderer model with explicit partial operations + outcome-class correspondence + exploration',
         design='6/C08'),
 })
+CHECKS.update({
+    'C05': dict(
+        level='translation_validation',
+        text='Oracle on real parsed graphs: every identity fact of the statement evaluated with `is` (reference endpoints are the '
+             'very Column objects of the database\'s tables under schema.name / bare / alias addressing, inline references start at '
+             'the declaring column, back-pointers of columns, indexes and all notes, index subjects, enum links, group members, '
+             'lookup by index / full name / alias, get_refs, unique SQL key holder). Theorems: every table/column position the '
+             'model\'s build produces for a reference is in range (links never dangle, never point to a copy); the model is tied '
+             'by the parse correspondence where links are positions read off with `is`.',
+        note='trusted: Lean kernel + standard axioms for the range theorems; hand-written Build model tied by sampling',
+        technique='Lean build model + range theorems + identity oracle on real graphs',
+        design='6/C05'),
+    'C12': dict(
+        level='proof',
+        text='Lean theorems over the model of the entry points: all accepting routes hand the parser the same text (one leading BOM '
+             'removed) and the same options (parse_file: the defaults), so they produce equal outcomes; a BOM is ignored on every '
+             'route; other source types are refused with TypeError. The model is tied to the code by running all 8 routes on the '
+             'same texts (plain, BOM, double BOM, non-ASCII, invalid) and comparing outcomes with the model and pairwise.',
+        note='UTF-8 decoding of files is Python\'s (trusted); Lean kernel, standard axioms; Entry model tied by enumeration of routes x sampled texts',
+        technique='Lean 4 proof over entry-point model + route-by-route correspondence',
+        design='6/C12'),
+    'C15': dict(
+        level='translation_validation',
+        text='Spelled documents with table and column properties parsed with the option on (stored exactly, order kept, next to '
+             'ordinary settings; flag set) and off (syntax error iff a property is present; otherwise identical content and '
+             'renderings), rendering followed through three flips of the database flag at database, table and column level, and '
+             'round trip with the flag on. The Lean parser model must agree under both option values; the model rendering with the '
+             'flag off must equal the rendering with properties erased. Theorems staged.',
+        note='trusted: hand-written models tied by sampling',
+        technique='Lean parser/renderer models + correspondence under both option values + flag-flip oracle',
+        design='6/C15'),
+})
 UNDER_CONSTRUCTION = 'check under construction (model and harness being built; see DESIGN.md)'
 
 
